@@ -246,6 +246,13 @@ def _join(prog, rep):
     O1 = ("call", "Into::into", (("param", 2, fb.arg_names.get(2, "_2")),))
     r2.check(len(calls) == 1 and calls[0][1] == [T1, O1], "forward", "fill forwards text and options unchanged to fill_slow_path", "",
              "fill calls fill_slow_path with %s" % [[describe(x, fb)[:60] for x in c[1]] for c in calls])
+    # ... and whatever else fill returns is the shortcut, which agrees with the general path (C05: shortcut rules)
+    st = lemmas.status(prog, "C05")
+    if st == "ok":
+        rep.ok("C09.R3", "crate", "lemma C05 (shortcut rules of fill / wrap_single_line) holds in this run", "evaluated: ok", nontrivial=False)
+    else:
+        rep.violation("C09.R3", "crate", "lemma:C05", "crate", "lemma C05 is %s in this run: fill or wrap_single_line has a path that "
+                      "returns something other than the general path's result" % st)
 
 
 def _line_ending_uses(prog, rep):
